@@ -107,21 +107,38 @@ class FScandirIterator(object):
 class FFile(object):
     """file object returned by the facade's builtin ``open``"""
 
-    def __init__(self, osf, fd, binary, name):
+    def __init__(self, osf, fd, binary, name, encoding=None, errors=None, newline=None):
         self._os = osf
         self._fd = fd
         self._binary = binary
         self.name = name
         self.closed = False
+        self._encoding = encoding or 'utf-8'  # the preferred encoding of a UTF-8 locale
+        self._errors = errors or 'strict'
+        self._newline = newline
+        self._buf = None
+        self._pos = 0
 
     def fileno(self):
         return self._fd
 
     def read(self, n=-1):
-        data = self._os.read(self._fd, -1 if n is None else n)
         if self._binary:
-            return data
-        return data.decode('utf-8')  # strict, like a UTF-8 locale
+            return self._os.read(self._fd, -1 if n is None else n)
+        # text mode: decode what is left once, translate line ends as io.TextIOWrapper does
+        # (newline=None: universal newlines, '\r\n' and '\r' read as '\n'), then count CHARACTERS
+        if self._buf is None:
+            text = self._os.read(self._fd, -1).decode(self._encoding, self._errors)
+            if self._newline is None:
+                text = text.replace('\r\n', '\n').replace('\r', '\n')
+            self._buf = text
+            self._pos = 0
+        if n is None or n < 0:
+            out = self._buf[self._pos:]
+        else:
+            out = self._buf[self._pos:self._pos + n]
+        self._pos += len(out)
+        return out
 
     def readinto(self, b):
         data = self._os.read(self._fd, len(b))
@@ -453,7 +470,7 @@ class Facades(object):
         else:
             raise ValueError('invalid mode: %r' % mode)
         fd = osf.open(_real_os.fspath(file), flags | pm.O_CLOEXEC, 0o666)
-        return FFile(osf, fd, binary, file)
+        return FFile(osf, fd, binary, file, encoding, errors, newline)
 
 
 _OS_LIKE_MODULES = ('os', 'posix', 'posixpath', 'genericpath', 'shutil', 'nt', 'ntpath')
